@@ -48,7 +48,8 @@ Lemma formerly_accepted_now_reported :
   /\ validate w_limit_string = Ok [(KLimitNotNumber, CStmt 0 [1])]
   /\ validate w_D12a_missing_attribute_in_nested_literal = Ok [(KMissingAttr, CLitJson 0 [0] 0)]
   /\ validate w_D12a_number_in_struct_array
-     = Ok [(KArrayElem, CLitJson 0 [0] 0); (KWrongTypeArray, CLit 0 [0] 0)].
+     = Ok [(KArrayElem, CLitJson 0 [0] 0); (KWrongTypeArray, CLit 0 [0] 0)]
+  /\ validate w_D28_nested_array_element = Ok [(KNestedArray, CLitJson 0 [0] 0)].
 Proof. vm_compute. repeat split; reflexivity. Qed.
 
 (* ---- C10 / C09: still accepted — guards are not type checked as a whole (D12b) ----------- *)
